@@ -171,6 +171,25 @@ pub fn gen_nid(rng: &mut Rng, thorough: bool, out: &mut String) {
             nid_deser(&format!("0x{s}"), out);
         }
     }
+    // every digit position replaced by a sign, blank or prefix character (integer parsers accept some)
+    {
+        let raw: [u8; 32] = rng.bytes(32).try_into().unwrap();
+        let h = hex::encode(raw);
+        for pos in 0..64usize {
+            for ch in ['+', '-', ' ', '_', 'x'] {
+                if !thorough && pos % 4 != 0 && pos != 32 && pos != 63 {
+                    continue;
+                }
+                let mut t: Vec<char> = h.chars().collect();
+                t[pos] = ch;
+                let t: String = t.into_iter().collect();
+                nid_deser(&t, out);
+                nid_deser(&format!("0x{t}"), out);
+            }
+        }
+        nid_deser(&format!("+{h}"), out);
+        nid_deser(&format!("0x+{}", &h[1..]), out);
+    }
     // non-JSON deserialisers: every length 0..=70 of raw bytes, and hex text as bytes
     for len in 0..=70usize {
         nid_deser_other(&rng.bytes(len), out);
@@ -289,10 +308,18 @@ pub fn gen_ck(rng: &mut Rng, thorough: bool, out: &mut String) {
         secp_inputs.push(v);
         secp_inputs.push(vec![0u8; len]);
     }
+    // raw secrets whose bytes happen to be ASCII hex digits / hex text of a secret
+    secp_inputs.push(b"0123456789abcdef0123456789abcdef".to_vec());
+    secp_inputs.push(b"ABCDEF0123456789abcdef0123456789".to_vec());
+    secp_inputs.push(b"0x0123456789abcdef0123456789abcd".to_vec());
+    secp_inputs.push(vec![0x30; 32]);
+    secp_inputs.push(vec![0x66; 32]);
+    secp_inputs.push(hex::encode(rng.bytes(32)).into_bytes());
+    secp_inputs.push(format!("0x{}", hex::encode(rng.bytes(32))).into_bytes());
     for inp in secp_inputs {
         ck_line("secp", &inp, out);
     }
-    let mut ed_inputs: Vec<Vec<u8>> = vec![vec![0u8; 32], vec![0xff; 32]];
+    let mut ed_inputs: Vec<Vec<u8>> = vec![vec![0u8; 32], vec![0xff; 32], b"0123456789abcdef0123456789abcdef".to_vec(), hex::encode(rng.bytes(32)).into_bytes(), vec![0x61; 32]];
     for _ in 0..(if thorough { 150 } else { 24 }) {
         ed_inputs.push(rng.bytes(32));
     }
